@@ -122,6 +122,7 @@ type Executor struct {
 	Samples      []map[string]interface{}
 	QKinds       map[string]int
 	IVChecked    int
+	firstViol    time.Time
 }
 
 var checkIV = os.Getenv("GOSYMX_CHECK_IV") != ""
@@ -801,6 +802,15 @@ func (ex *Executor) Run(entry *ssa.Function) {
 			ex.inconclusive("path budget %d exhausted with %d states pending", ex.opt.MaxPaths, len(ex.work))
 			ex.work = nil
 			break
+		}
+		if len(ex.Violations) > 0 {
+			// the verdict of this job is settled; look for further, different violations only briefly
+			if ex.firstViol.IsZero() {
+				ex.firstViol = time.Now()
+			} else if time.Since(ex.firstViol) > 20*time.Second {
+				ex.work = nil
+				break
+			}
 		}
 		if len(ex.Violations) >= ex.opt.MaxViolations {
 			if len(ex.work) > 0 {
